@@ -501,6 +501,11 @@ class _RunSpectral(Contract):
     callable_modular = False
     generic_replay = False
     multi = False
+    bounded_driver = {"driver": "flow_spectral", "inputs": {}}
+
+    def witness(self, o):
+        return dict(self.bounded_driver)
+
     use = dict(_RunC09.use)
     use["pyoma2.functions.fdd.SD_svalsvec"] = "havoc"
 
